@@ -87,6 +87,28 @@ Print Assumptions C11_bc_inv_satisfiable.
    length is the sum over all pairs (i, j) of the SFS cross moments - any finite index types I, J,
    every dimension n, every generator S, every time t.  The other four are the binary and scalar
    cases, in each argument. *)
+(* ---- the tie to phasegen/rewards.py by translation (gen/RewardsGen.v is regenerated from the source on every run) ---- *)
+From PG Require Import gen.NpState gen.RewardsGen proofs.GenRewardsEquiv.
+
+Theorem C11_rewards_py_is_the_model :
+  forall (n nl : nat) (r : reward) (states : list state),
+    reward_ok n r = true -> Forall (fun s => n_loci s = nl) states ->
+    map (gen_reward_get OpsR n nl r) states = reward_vector OpsR n r states.
+Proof. exact gen_reward_vector_eq_R. Qed.
+Print Assumptions C11_rewards_py_is_the_model.
+
+Theorem C11_rewards_py_sfs_sums_to_branch_length :
+  forall n s, (2 <= n)%nat -> bc_inv n s ->
+    fold_right Rplus 0%R (map (fun i => gen_reward_get OpsR n 1 (RUnfoldedSFS i) s) (seq 1 (n - 1)%nat))
+    = gen_reward_get OpsR n 1 RTotalBranchLength s.
+Proof. exact source_sfs_sums_to_branch_length. Qed.
+Print Assumptions C11_rewards_py_sfs_sums_to_branch_length.
+
+Theorem C11_rewards_py_support_is_the_model :
+  forall r, gen_supports_lc r = supports_lc r /\ gen_supports_bc r = supports_bc r.
+Proof. exact (fun r => conj (gen_supports_lc_eq r) (gen_supports_bc_eq r)). Qed.
+Print Assumptions C11_rewards_py_support_is_the_model.
+
 From mathcomp Require Import all_ssreflect all_algebra.
 From PG Require Import proofs.ExpLaws analysis.Rstruct analysis.RSums analysis.MExp analysis.MExpLaws
                        proofs.ExpLaws2.
